@@ -256,8 +256,36 @@ fn gen_interference(rng: &mut Rng) -> String {
              lst(vec![sym("plant"), t_l, t_r, num(1)])]).to_string()
 }
 
+/// "every match found in this round is applied": an EARLIER application of the same call merges a class away (rule (u ?a) => ?a unites
+/// u(t) with t; the smaller class dies) that the match of a LATER rule has bound to a pattern variable; the later rule must still fire
+/// (stale ids are resolved through find)
+fn gen_interference_kill(rng: &mut Rng) -> String {
+    let pool: Vec<u64> = vec![1, 2, 3];
+    let t = match rng.below(4) { 0 => rt(5, vec![slot_arg(*rng.pick(&pool))], vec![]), 1 => rt(0, vec![slot_arg(1), slot_arg(2)], vec![]), 2 => rt(4, vec![], vec![]), _ => gen_term(rng, 1, &pool) };
+    let cc = rt(3, vec![], vec![]);
+    let (k_l, k_r) = ("(u ?a)", "?a");
+    // which side of the killing union the later match binds: u(t) or t
+    let bound = if rng.chance(1, 2) { un(t.clone()) } else { t.clone() };
+    let (p_l, p_r, t_l, t_r) = match rng.below(3) {
+        0 => ("(h ?b (c))", "(h (c) ?b)", hh(bound.clone(), cc.clone()), hh(cc.clone(), bound.clone())),
+        1 => ("(h (c) ?b)", "(h ?b (h ?b (c)))", hh(cc.clone(), bound.clone()), hh(bound.clone(), hh(bound.clone(), cc.clone()))),
+        _ => ("(h (h ?b (c)) (d))", "(h (d) ?b)", hh(hh(bound.clone(), cc.clone()), rt(4, vec![], vec![])), hh(rt(4, vec![], vec![]), bound.clone())),
+    };
+    let mut hb = HB { terms: vec![], ops: vec![], nadd: 0, handle_term: vec![] };
+    // uses that make one or the other class the bigger one
+    if rng.chance(1, 2) { hb.add(hh(t.clone(), t.clone())); }
+    if rng.chance(1, 2) { hb.add(hh(un(t.clone()), cc.clone())); }
+    hb.add(un(t.clone()));
+    hb.add(t_l.clone());
+    let rules = vec![sym("rules"), rule_sx(902, &(k_l, k_r, None, 0)), rule_sx(903, &(p_l, p_r, None, 0))];
+    let mut tt = vec![sym("terms")]; tt.extend(hb.terms);
+    let mut o = vec![sym("ops")]; o.extend(hb.ops);
+    lst(vec![sym("eg4"), flags(), lst(tt), lst(o), sym("plant+interference"), lst(rules), lst(vec![sym("iters"), num(1)]),
+             lst(vec![sym("plant"), t_l, t_r, num(1)])]).to_string()
+}
+
 pub fn gen_case(rng: &mut Rng, outside: bool) -> String {
-    if !outside && rng.chance(1, 10) { return gen_interference(rng); }
+    if !outside && rng.chance(1, 10) { return if rng.chance(1, 2) { gen_interference(rng) } else { gen_interference_kill(rng) }; }
     let pool: &[(&str, &str)] = if outside { POOL4_OUT } else { POOL4 };
     let ri = rng.below(pool.len() as u64) as usize;
     let (lhs_s, rhs_s) = pool[ri];
